@@ -29,19 +29,48 @@ RULE = ("random grammars (2-6 non-terminals with permuted names, 2-5 terminals, 
         "values differ from token names.  Compared: constructor outcome, is_ambiguous, the tree (names, values) or error class "
         "of every input, the validator verdict on prods_map/_suffix_symbols, and for every 10th case (thorough: all) prods_map "
         "and _suffix_symbols themselves.  Non-trivial = distinct (grammar, inputs) whose constructor succeeds, whose grammar has "
-        "a common-prefix group or an empty alternative, and at least one input parses to a tree.")
+        "a common-prefix group or an empty alternative, and at least one input parses to a tree.  "
+        "SESSIONS (one impl_run = one parser object used for a sequence of parse() calls): (a) text sessions: a random tokenizer "
+        "configuration in the pattern language of coq/C04/Model.v (white space group SPACE / WS renamed to SPACE / WS not renamed; "
+        "two word groups both / one / none renamed to WORD by synonyms; numbers DIG renamed to NUM or not; double / single quoted "
+        "strings renamed to STRING or not; one-character literals renamed to themselves or not; keywords keyed by renamed and by "
+        "non-renamed token names, on words, numbers, strings and on a literal; decoy keyword entries keyed by a pattern group name "
+        "that is renamed, or put on a span token, which never apply; end-of-line comments and /* */ span comments renamed to COMMENT "
+        "or not; skip_tokens default / explicit default / plus a substantive class or keyword token / without COMMENT / without the "
+        "white space class / naming a group that is no token (GrammarError); shuffled pattern order), a grammar over the FINAL "
+        "token names (30%: any token sequence is a sentence, so every tokenisation defect shows in a tree; else a random grammar of "
+        "the distribution above with keywords and their base classes preferred as terminals), texts rendered from a KNOWN token "
+        "sequence (sentences, broken sentences, and sentences in which a keyword is put where the grammar has its base token and "
+        "vice versa) with separators chosen among blanks, tabs, newlines, no separator where the lexemes allow it, skipped comments; "
+        "a foreign character in 4% of the texts; the expected non-skipped tokens of every text come from the generator, never from "
+        "the library's tokenizer; (b) plain sessions with the token-list tokenizer.  In both: every text parsed once, then repeated "
+        "and re-ordered calls, calls with start_symbol_name (user symbols incl. sentences sampled from that symbol; rarely a "
+        "terminal, an unknown name, a helper name X__S00), and for half of the sessions a second parser built from the SAME "
+        "productions / synonyms / keywords objects (other smart_factorization value and/or start symbol) running a subset of the "
+        "calls.  Compared in Coq with the model (C01/RunTok.v): constructor outcome, is_ambiguous, validator verdict, the model "
+        "tokenizer's non-skipped tokens of every text against the generator's, the tree or error class of every call, the same "
+        "for the second parser.  Non-trivial session = some call returns a tree and there are repeated calls.")
 TRUSTED_BASE = [
-    "tokenisation is outside this model: the model's parse receives the generator's token list (names, values, $END$ last and "
-    "only there); the implementation tokenises the rendered text itself (tokenizer and skip-token filtering are C04's subject)",
+    "plain cases / plain sessions: the model's parse receives the generator's token list (names, values, $END$ last and only "
+    "there) while the implementation tokenises the rendered text; text sessions: the model tokenises the text itself with the "
+    "tokenizer model of coq/C04/Model.v (patterns restricted to its pattern language: literal, character range+, \\s+, "
+    "literal.* , quoted; span body up to the first closer) and its result is compared with the generator's tokens",
+    "re (CPython): pattern.match(line, col) returns the first alternative that matches at col (as in C04); gen/C04_Consts.v "
+    "(white space table, default skip list, $END$ name, line_start_reset) is regenerated by harness/props/c04.py:gen_consts",
     "GrammarError checks of _verify_grammar_structure_part1 (unknown symbols etc.) are outside the model; generated grammars "
     "never trigger them and the theorems do not need them (an unknown symbol only makes parses fail)",
     "python -O would switch off the constructor's name assertions that the model treats as rejections",
 ]
-ASSUMPTIONS = ["grammars use plain productions (templates are C05's subject); keywords/synonyms only rename tokens before the "
-               "parser sees them (tokenizer, C04)"]
+ASSUMPTIONS = ["grammars use plain productions (templates are C05's subject)",
+               "parse_text_sound: no literal / end-of-line pattern is empty (lexicon_ok), $END$ is not a token name of the "
+               "configuration, the start symbol of the call is not a helper symbol (true for every name without '__')",
+               "texts are str (lists of lines are C04's subject)"]
 MODELLED = ("ak/llparser.py: LLParser.__init__ name assertions, _create_productions (plain), _factorize_productions and helpers "
             "incl. the smart undo and their assertions, _get_nullables, _calc_first_sets, _calc_follow_sets, _make_llone_table, "
-            "_verify_grammar_structure_part2, the main loop of parse incl. suffix splicing and roll-back (coq/LLP/*.v)")
+            "_verify_grammar_structure_part2, the main loop of parse incl. suffix splicing and roll-back (coq/LLP/*.v); "
+            "parse() on a text: the start_symbol_name assertion 1639-1643, _Tokenizer.tokenize 240-334 incl. synonyms and keywords "
+            "(coq/C04/Model.v), get_all_token_names, the default / explicit skip_tokens of the constructor 1574-1587 and the "
+            "filter 1646-1649 (coq/C01/RunTok.v build_cfg, parse_text)")
 
 
 def gen_consts(repo):
@@ -1080,9 +1109,22 @@ LEVEL_TEXT = ("Full (model level; all user grammars, all token lists, all iterat
               "(nested common prefixes, nullable symbol, roll-back, both smart values), reserved_name_*_rejected.  Not claimed by "
               "a theorem, only by the per-run correspondence: that the model is the code (trees, is_ambiguous, prods_map, suffix "
               "symbols and error classes agree on every generated case; the Python validator is applied to the implementation's "
-              "own prods_map), ProdsTemplate grammars (C05), tokenisation/skip tokens/keywords (C04).")
+              "own prods_map), ProdsTemplate grammars (C05).  "
+              "PropsTok.v (token_filter clause, full at model level): parse_text_sound: for every tokenizer configuration (ordered "
+              "pattern alternatives, span tokens, synonyms, keywords), every skip_tokens argument, grammar, text and per-call start "
+              "symbol that is not a helper symbol, if the constructor accepts and parse(text) returns a tree then the text was "
+              "tokenised completely, every token is the product of a pattern match named by synonyms-then-keywords of its own "
+              "class (span tokens: synonym only), and the leaves are exactly the tokens whose final name is not in skip_tokens, "
+              "names and values, in order; root = the start symbol of the call; valid_tree, no_helper, kinds_ok as above.  "
+              "token_names_are_terminals, parse_sound_at (any per-call start symbol outside the helper symbols), "
+              "start_without_dunder_is_no_helper.  Examples: parse_text_sound_nonvacuous (keywords on renamed classes, a decoy "
+              "entry, skipped non-renamed class, comments, a common-prefix group, a LexicalError, a per-call start symbol), "
+              "per_call_helper_start_refuted (parse(text, start_symbol_name='S__S00') returns a tree rooted at a helper symbol: "
+              "the assertion only asks for a key of prods_map; oracle signature helper-start-symbol-per-call, judged once "
+              "registered).  State between parse() calls and between parsers made from the same productions object is not a "
+              "theorem (the model is a pure function): it is tested by the sessions of the correspondence run.")
 LEVEL_NOTE = ("Trusted: Coq kernel + vm_compute; fidelity of the hand model coq/LLP (checked by correspondence on every run, not "
               "proved); the token list handed to the model equals the implementation's non-skipped tokens; the harness.  Finding "
               "fixed during this work: reserved '__' names were accepted inside productions and as start symbol (/repo 6e22989), "
-              "regression cases in corpus/C01.")
+              "regression cases in corpus/C01.  The tokenizer model coq/C04/Model.v is imported (not owned) by C01/RunTok.v.")
 DESIGN_REF = "DESIGN.md section 8, C01 and Appendix A"
